@@ -267,6 +267,9 @@ impl WorkerTaskMapping {
     pub fn send_messages(self, core: &mut Core, comm: &mut impl Comm) {
         for (worker_id, up) in self.workers {
             if !up.retracts.is_empty() {
+                if let Some(worker) = core.find_worker_mut(worker_id) {
+                    worker.retraction_sent();
+                }
                 comm.send_worker_message(
                     worker_id,
                     &ToWorkerMessage::RetractTasks(TaskIdsMsg { ids: up.retracts }),
